@@ -19,18 +19,31 @@
 //   repl    replace_and_simplify(tree, n, True|False), every node n: every node's table agrees
 //           on the assignments consistent with the replacement; a thrown RuntimeError ("logical
 //           contradiction") only if NO assignment is consistent; then on the replaced tree
-//           (the order UnitProto::build uses): post, flag, str, simplify again
+//           (the order UnitProto::build uses): post, flag, str, simplify again, and dm-aliased:
+//           transform_negated_joins on the replaced tree (it contains Aliased nodes and literal
+//           constants; trees with a double negation stay excluded) with the volume sets {}, {all
+//           alias nodes + all nodes nothing refers to}, every alias node alone, every negated
+//           surface alone: volumes keep their function on the consistent assignments, no
+//           negation of a join is left, infix of every node (signatures demorgan-aliased:*)
 //   dm      transform_negated_joins with volume sets {}, every single node, every pair, all:
 //           volumes keep their function, no negation of a join is left, then an explicit
 //           infix encoding of every node (fully parenthesised, and with the outermost
 //           parentheses omitted; tokens placed in front of a guard page) -> InfixEvaluator,
 //           post/flag/str on the new volume roots
 //
+//   chain   a second, directed lattice (see check_chains): right-nested alternating all/any chains
+//           whose postfix stack depth is 5 .. M-1 | M .. M+8 (M = LogicStack::max_stack_depth()):
+//           post/flag/str on the root for depth < M, and for every depth {surfaces, one volume
+//           with the emitted faces+logic} -> UnitInput -> OrangeParams: rejected ("logic depth")
+//           iff depth >= M, else scalars.max_logic_depth == depth and LogicEvaluator on the
+//           STORED logic reproduces the table (UnitInserter::calc_max_depth, OrangeParams limit)
+//
 // Bounds: K = 6 (quick) / 7 (thorough) effective inserts for each of two surface labellings;
 // insert transitions at every state with < K nodes.  Thorough, labelling 1: depth-7 leaves get
 // the encoder checks only.  Part "csg_asan" (thorough): K = 5 under AddressSanitizer.
 // The exploration is depth-first and sharded by the index of the depth-<=5 prefix state.
 //
+// Case ids of the chain lattice: "chain:L<lab>/depth=<d>/outer=<all|any>/neg=<0|1>".
 // Case id = the state's path, e.g. "L0/s0/s1/n2/a2.3/n5" (labelling 0; surface, surface,
 // not{2}, all{2,3}, not{5}).  --case <path> rebuilds exactly that state and runs every check
 // and every insert transition from it.
@@ -40,6 +53,8 @@
 #include <algorithm>
 #include <functional>
 #include <map>
+#include <memory>
+#include <set>
 #include <sstream>
 #include <string>
 #include <utility>
@@ -48,6 +63,9 @@
 
 #include "corecel/Assert.hh"
 #include "corecel/cont/Span.hh"
+#include "orange/OrangeData.hh"
+#include "orange/OrangeInput.hh"
+#include "orange/OrangeParams.hh"
 #include "orange/OrangeTypes.hh"
 #include "orange/orangeinp/CsgTree.hh"
 #include "orange/orangeinp/CsgTreeUtils.hh"
@@ -125,12 +143,13 @@ enum Ctr
     c_op_string,
     c_op_sense,
     c_derived_trees,
+    c_op_params,
     c_N
 };
 char const* const ctr_name[c_N] = {"states", "transitions", "evaluations", "op_insert",
                                    "op_simplify", "op_replace", "op_demorgan", "op_postfix",
                                    "op_infix_eval", "op_flagger", "op_infix_string",
-                                   "op_sense_eval", "derived_trees"};
+                                   "op_sense_eval", "derived_trees", "op_orange_params"};
 enum Tag
 {
     t_ins_new,
@@ -177,6 +196,15 @@ enum Tag
     t_infix_eval_open,
     t_infix_skipped_false,
     t_str_negated_join,
+    t_dma_run,
+    t_dma_skipped_dblneg,
+    t_dma_alias_volume,
+    t_dma_negsurf_volume,
+    t_dma_alias_referenced,
+    t_chain_built,
+    t_chain_evaluated,
+    t_chain_accepted,
+    t_chain_rejected,
     t_N
 };
 char const* const tag_name[t_N] = {
@@ -193,13 +221,18 @@ char const* const tag_name[t_N] = {
     "demorgan:volume-constant", "postfix:remap-nonidentity", "postfix:faces-proper-subset",
     "postfix:constant", "flagger:simple-literal", "flagger:simple-conjunction",
     "flagger:simple-unsatisfiable", "flagger:internal", "flagger:internal-but-conjunction",
-    "infix:evaluated", "infix:evaluated-outer-parentheses-omitted", "infix:skipped-false-constant", "string:negated-join"};
+    "infix:evaluated", "infix:evaluated-outer-parentheses-omitted", "infix:skipped-false-constant", "string:negated-join",
+    "demorgan-aliased:run", "demorgan-aliased:skipped-double-negation",
+    "demorgan-aliased:alias-node-as-volume", "demorgan-aliased:negated-surface-as-volume",
+    "demorgan-aliased:alias-referenced-by-a-node", "chain:built", "chain:evaluated-by-LogicEvaluator",
+    "chain:accepted-by-OrangeParams", "chain:rejected-logic-depth"};
 
 struct Stats
 {
     uint64_t ctr[c_N] = {};
     uint64_t tag[t_N] = {};
     uint64_t max_postfix_depth = 0, max_nodes = 0, max_dm_nodes = 0, max_logic_len = 0;
+    uint64_t max_postfix_depth_chain = 0;
     uint64_t state_tags = 0;  // tags hit by the state being checked (bit mask)
     void hit(Tag t)
     {
@@ -403,7 +436,7 @@ struct StrParser
     bool saw_negated_join = false;
     TT expr(int depth = 0)
     {
-        if (!ok || p >= s.size() || depth > 64)
+        if (!ok || p >= s.size() || depth > 1024)
         {
             ok = false;
             return 0;
@@ -567,6 +600,7 @@ struct Checker
     Lab lab;
     std::vector<VariantSurface> surfaces;
     bool do_sense = true;
+    bool demorgan_on_replaced = true;
 
     Checker(vf::Run& r, Lab const& l) : R(r), lab(l)
     {
@@ -1031,25 +1065,95 @@ struct Checker
                 std::string ctx = "after " + rid;
                 check_encoders(c, J, nsurf, cid, ctx.c_str(), false);
                 check_simplify(c, J, nsurf, care, cid, ctx.c_str(), false);
+                if (demorgan_on_replaced)
+                    check_demorgan(c, J, nsurf, cid, false, true, care, ctx.c_str());
             }
     }
 
     //-----------------------------------------------------------------------//
+    // aliased = false: trees as built by insert() (alias-free by construction).
+    // aliased = true: a tree produced by replace_and_simplify (the order UnitProto::build uses:
+    // build, replace the exterior, then encode the volumes): contains Aliased nodes and literal
+    // constants; the volumes' functions must be kept on the `care` assignments (those consistent
+    // with the replacement).  DeMorganSimplifier dereferences aliases throughout and the
+    // library's own unit test (transform_negated_joins_with_aliases) runs it on such a tree;
+    // trees with a double negation (through an alias) stay excluded.  Volume sets: {}, {all alias
+    // nodes and all nodes no other node refers to}, and every alias node / negated surface alone.
     void check_demorgan(CsgTree const& t, Info const& I, int nsurf, std::string const& cid,
-                        bool pairs)
+                        bool pairs, bool aliased = false, TT care = 0xFFFF,
+                        char const* ctx = "built")
     {
         using celeritas::detail::InfixEvaluator;
         size_t const N = t.size();
-        TT const mask = mask_of(nsurf);
+        TT const mask = TT(mask_of(nsurf) & care);
         int const nassign = 1 << nsurf;
+        std::string const pre = aliased ? "demorgan-aliased:" : "demorgan:";
         // documented precondition of DeMorganSimplifier
-        if (I.has_alias || I.dbl_neg)
+        if (!aliased && (I.has_alias || I.dbl_neg))
             return;
+        if (aliased && I.dbl_neg)
+        {
+            S.hit(t_dma_skipped_dblneg);
+            return;
+        }
         std::vector<std::vector<size_t>> sets;
         sets.push_back({});
-        for (size_t i = 0; i < N; ++i)
-            sets.push_back({i});
-        if (N > 3)
+        if (aliased)
+        {
+            S.hit(t_dma_run);
+            std::vector<char> referenced(N, 0);
+            for (size_t i = 2; i < N; ++i)
+            {
+                Node const& nd = t[NodeId(i)];
+                auto ref = [&](NodeId c) {
+                    if (c.unchecked_get() < N)
+                    {
+                        referenced[c.unchecked_get()] = 1;
+                        if (std::holds_alternative<Aliased>(t[c]))
+                            S.hit(t_dma_alias_referenced);
+                    }
+                };
+                if (auto const* a = std::get_if<Aliased>(&nd))
+                    referenced[a->node.unchecked_get() < N ? a->node.unchecked_get() : 0] = 1;
+                else if (auto const* n = std::get_if<Negated>(&nd))
+                    ref(n->node);
+                else if (auto const* j = std::get_if<Joined>(&nd))
+                    for (NodeId o : j->nodes)
+                        ref(o);
+            }
+            std::vector<size_t> top;
+            for (size_t i = 2; i < N; ++i)
+            {
+                Node const& nd = t[NodeId(i)];
+                bool is_alias = std::holds_alternative<Aliased>(nd);
+                bool neg_surf = false;
+                if (auto const* n = std::get_if<Negated>(&nd))
+                {
+                    size_t d = n->node.unchecked_get();
+                    for (int g = 0; g < 64 && d < N; ++g)
+                    {
+                        auto const* a = std::get_if<Aliased>(&t[NodeId(d)]);
+                        if (!a)
+                            break;
+                        d = a->node.unchecked_get();
+                    }
+                    neg_surf = d < N && std::holds_alternative<Surface>(t[NodeId(d)]);
+                }
+                if (is_alias || !referenced[i])
+                    top.push_back(i);
+                if (is_alias || neg_surf)
+                {
+                    sets.push_back({i});
+                    S.hit(is_alias ? t_dma_alias_volume : t_dma_negsurf_volume);
+                }
+            }
+            if (!top.empty())
+                sets.push_back(top);
+        }
+        else
+            for (size_t i = 0; i < N; ++i)
+                sets.push_back({i});
+        if (!aliased && N > 3)
         {
             std::vector<size_t> all;
             for (size_t i = 2; i < N; ++i)
@@ -1058,13 +1162,16 @@ struct Checker
             std::vector<size_t> rev(all.rbegin(), all.rend());
             sets.push_back(rev);
         }
-        if (pairs)
+        if (pairs && !aliased)
             for (size_t i = 2; i < N; ++i)
                 for (size_t j = i + 1; j < N; ++j)
                     sets.push_back({i, j});
-        S.hit(I.neg_join ? t_dm_negated_join : t_dm_no_negated_join);
-        if (I.nested_neg_join)
-            S.hit(t_dm_nested_negated_join);
+        if (!aliased)
+        {
+            S.hit(I.neg_join ? t_dm_negated_join : t_dm_no_negated_join);
+            if (I.nested_neg_join)
+                S.hit(t_dm_nested_negated_join);
+        }
         for (auto const& vols : sets)
         {
             CsgTree in = t;
@@ -1077,9 +1184,9 @@ struct Checker
             }
             catch (std::exception const& e)
             {
-                violation("demorgan:threw", cid,
-                          fmt("transform_negated_joins on %s threw %s", tree_str(in).c_str(),
-                              e.what()));
+                violation(pre + "threw", cid,
+                          fmt("[%s] transform_negated_joins on %s threw %s", ctx,
+                              tree_str(in).c_str(), e.what()));
                 continue;
             }
             ++S.ctr[c_op_demorgan];
@@ -1112,16 +1219,18 @@ struct Checker
             S.ctr[c_evaluations] += vols.size();
             if (!err.empty())
             {
-                violation("demorgan:function-changed", cid,
-                          fmt("transform_negated_joins: %s; in %s out %s", err.c_str(),
+                violation(pre + "function-changed", cid,
+                          fmt("[%s] transform_negated_joins: %s; in %s out %s", ctx, err.c_str(),
                               tree_str(in).c_str(), tree_str(out).c_str()));
                 continue;
             }
-            if (out.size() > N)
+            if (aliased)
+                ;
+            else if (out.size() > N)
                 S.hit(t_dm_tree_grew);
             else if (out.size() < N)
                 S.hit(t_dm_tree_shrank);
-            if (I.neg_join && out.size() > N)
+            if (!aliased && I.neg_join && out.size() > N)
             {
                 // a join that is both used directly and negated is kept twice
                 S.hit(t_dm_join_kept_and_negated);
@@ -1139,7 +1248,7 @@ struct Checker
                 }
                 if (rc == 2)
                 {
-                    violation("demorgan:negated-join-left", cid,
+                    violation(pre + "negated-join-left", cid,
                               fmt("node %zu of %s is not expressible in infix logic", i,
                                   tree_str(out).c_str()));
                     continue;
@@ -1165,7 +1274,7 @@ struct Checker
                     ++S.ctr[c_transitions];
                     S.ctr[c_evaluations] += nassign;
                     S.hit(spelling ? t_infix_eval_open : t_infix_eval);
-                    if ((got ^ J.val[i]) & mask)
+                    if ((got ^ J.val[i]) & mask_of(nsurf))
                     {
                         std::string l;
                         for (size_t q = 0; q < n; ++q)
@@ -1656,6 +1765,220 @@ struct Explorer
     }
 };
 
+//---------------------------------------------------------------------------//
+// DEEP CHAINS (second, directed lattice next to the exploration).
+//
+// The exploration never has more than ~4 entries on the LogicStack.  Here: right-nested chains
+//     J_1 = op_1{s, X_2},  X_k = J_k or not(J_k),  J_k = op_k{s_(k mod 4), X_(k+1)}, ...,
+//     J_L = op_L{s_(L mod 4), s_((L+1) mod 4)},      op alternating between all / any,
+// over the 4 surfaces (inserted first, so that they have the lowest node ids and are emitted
+// before the nested join: one more stack entry per level).  L is chosen so that the running
+// postfix stack depth (computed by the harness from the emitted logic, never assumed) is
+// 5, 8, 9, 15, 16, 17, 24, 31, 32, 33, 40 and M-2, M-1 | M, M+1, M+8, where M =
+// LogicStack::max_stack_depth() (bits of celeritas::size_type: 64 in this host build, 32 with
+// CUDA/HIP) and OrangeParams accepts max_logic_depth < M.  For each chain x outer operator x
+// {plain, every second level negated} x labelling:
+//   depth <  M: check_encoders on the root (PostfixLogicBuilder plain + remapped ->
+//               LogicEvaluator on all 16 assignments vs the harness's own table, flagger, string)
+//   every depth: {4 surfaces + a bounding sphere, [EXTERIOR], one volume with the emitted (faces,
+//               logic)} as a hand-made UnitInput -> OrangeParams (UnitInserter::calc_max_depth,
+//               the logic-depth VALIDATE).  Required: depth >= M -> rejected with the "logic
+//               depth" RuntimeError; depth < M -> accepted, scalars.max_logic_depth equals the
+//               harness's depth, and LogicEvaluator on the logic STORED in the params reproduces
+//               the table.  Never "accepted and different".
+void check_chains(vf::Run& R, Checker& C, bool thorough)
+{
+    using celeritas::detail::LogicEvaluator;
+    using celeritas::detail::LogicStack;
+    Lab const& lab = C.lab;
+    int const limit = int(LogicStack::max_stack_depth());
+    std::set<int> depths{5, 8, 9, 15, 16, 17, 24, 31, 32, 33, 40,
+                         limit - 2, limit - 1, limit, limit + 1, limit + 8};
+    std::set<int> reached;
+    uint64_t index = 0;
+    for (int want_depth : depths)
+        for (int outer = 0; outer < 2; ++outer)
+            for (int negv = 0; negv < 2; ++negv)
+            {
+                uint64_t const my_index = 5000000 + 97 * (index++) + lab.index;
+                std::string cid = fmt("chain:L%d/depth=%d/outer=%s/neg=%d", lab.index, want_depth,
+                                      outer ? "any" : "all", negv);
+                if (R.replay() ? !R.want(cid) : !R.mine(my_index))
+                {
+                    reached.insert(want_depth);  // checked by the shard that owns it
+                    continue;
+                }
+                R.begin_case(cid, 60);
+                ++S.ctr[c_states];
+                int const L = want_depth - 1;
+                CsgTree t;
+                NodeId sn[4];
+                for (int k = 0; k < 4; ++k)
+                    sn[k] = t.insert(Surface{LocalSurfaceId{lab.sid[k]}}).first;
+                NodeId x = t.insert(Joined{((L + outer) % 2) ? op_and : op_or,
+                                           {sn[L % 4], sn[(L + 1) % 4]}})
+                               .first;
+                for (int k = L - 1; k >= 1; --k)
+                {
+                    if (negv && (k % 2))
+                        x = t.insert(Negated{x}).first;
+                    x = t.insert(Joined{((k + outer) % 2) ? op_and : op_or, {sn[k % 4], x}}).first;
+                }
+                size_t const root = x.unchecked_get();
+                Info I = analyze(t, lab);
+                if (!I.ok)
+                    R.harness_error(cid + ": chain tree malformed: " + I.why);
+                S.max_nodes = std::max<uint64_t>(S.max_nodes, t.size());
+
+                // the logic as production would store it (remapped faces: indices into the
+                // unit's surface list = calc_surfaces order)
+                std::vector<LocalSurfaceId> mapping = calc_surfaces(t);
+                orangeinp::detail::PostfixLogicBuilder build_mapped(t, mapping);
+                auto res = build_mapped(NodeId(root));
+                auto const& faces = res.first;
+                auto const& lgc = res.second;
+                int depth = 0, maxd = 0;
+                for (logic_int tok : lgc)
+                {
+                    if (!logic::is_operator_token(tok) || tok == logic::ltrue)
+                        ++depth;
+                    else if (tok == logic::land || tok == logic::lor)
+                        --depth;
+                    maxd = std::max(maxd, depth);
+                }
+                if (maxd != want_depth)
+                    R.harness_error(fmt("%s: chain reaches stack depth %d", cid.c_str(), maxd));
+                reached.insert(maxd);
+                S.hit(t_chain_built);
+                if (maxd < limit)
+                {
+                    std::vector<size_t> roots{root};
+                    C.check_encoders(t, I, 4, cid, "chain", false, &roots);
+                    S.hit(t_chain_evaluated);
+                }
+
+                // hand-made unit -> OrangeParams
+                UnitInput u;
+                u.label = Label{"chain"};
+                for (LocalSurfaceId sid : mapping)
+                    u.surfaces.push_back(C.surfaces[sid.unchecked_get()]);
+                u.surfaces.push_back(Sphere{Real3{0, 0, 0}, 10.0});
+                u.bbox = BBox{{-10, -10, -10}, {10, 10, 10}};
+                {
+                    VolumeInput v;
+                    v.label = Label{"[EXTERIOR]"};
+                    v.faces = {LocalSurfaceId{unsigned(mapping.size())}};
+                    v.logic = {logic_int(0)};
+                    v.zorder = ZOrder::exterior;
+                    v.bbox = BBox::from_infinite();
+                    u.volumes.push_back(v);
+                }
+                {
+                    VolumeInput v;
+                    v.label = Label{"chain"};
+                    v.faces = faces;
+                    v.logic = lgc;
+                    v.flags = VolumeRecord::internal_surfaces;
+                    v.zorder = ZOrder::media;
+                    v.bbox = BBox::from_infinite();
+                    u.volumes.push_back(v);
+                }
+                OrangeInput inp;
+                inp.universes.push_back(std::move(u));
+                inp.tol = Tolerance<>::from_default();
+                std::unique_ptr<OrangeParams> params;
+                std::string threw;
+                bool depth_error = false;
+                try
+                {
+                    params = std::make_unique<OrangeParams>(std::move(inp));
+                }
+                catch (std::exception const& e)
+                {
+                    threw = e.what();
+                    depth_error = threw.find("logic") != std::string::npos
+                                  && threw.find("depth") != std::string::npos;
+                    if (threw.empty())
+                        threw = "(empty message)";
+                }
+                ++S.ctr[c_transitions];
+                ++S.ctr[c_op_params];
+                if (maxd >= limit)
+                {
+                    if (threw.empty())
+                        C.violation("chain:too-deep-logic-accepted", cid,
+                                    fmt("a volume whose postfix logic needs %d stack entries "
+                                        "(LogicStack holds %d) was accepted by OrangeParams "
+                                        "(scalars.max_logic_depth = %u)",
+                                        maxd, limit,
+                                        unsigned(params->host_ref().scalars.max_logic_depth)));
+                    else if (!depth_error)
+                        C.violation("chain:too-deep-logic-other-error", cid,
+                                    fmt("depth %d rejected, but not by the logic depth check: %s",
+                                        maxd, threw.substr(0, 300).c_str()));
+                    else
+                        S.hit(t_chain_rejected);
+                }
+                else if (!threw.empty())
+                {
+                    C.violation("chain:valid-logic-rejected", cid,
+                                fmt("a volume whose postfix logic needs %d stack entries (< %d) "
+                                    "was rejected: %s",
+                                    maxd, limit, threw.substr(0, 300).c_str()));
+                }
+                else
+                {
+                    S.hit(t_chain_accepted);
+                    S.max_postfix_depth_chain = std::max<uint64_t>(S.max_postfix_depth_chain, maxd);
+                    auto const& hr = params->host_ref();
+                    unsigned got_depth = unsigned(hr.scalars.max_logic_depth);
+                    if (int(got_depth) != maxd)
+                        C.violation("chain:max-logic-depth-differs", cid,
+                                    fmt("scalars.max_logic_depth = %u, the logic's running stack "
+                                        "depth is %d", got_depth, maxd));
+                    auto const& su = hr.simple_units[SimpleUnitId{0}];
+                    VolumeRecord const& vr = hr.volume_records[su.volumes[LocalVolumeId{1}]];
+                    auto stored = hr.logic_ints[vr.logic];
+                    auto stored_faces = hr.local_surface_ids[vr.faces];
+                    std::string err;
+                    if (stored.size() != lgc.size() || stored_faces.size() != faces.size())
+                        err = fmt("stored logic has %zu tokens / %zu faces, built %zu / %zu",
+                                  size_t(stored.size()), size_t(stored_faces.size()), lgc.size(),
+                                  faces.size());
+                    else
+                    {
+                        LogicEvaluator eval(stored);
+                        TT got = 0;
+                        std::array<Sense, 8> senses;
+                        for (int a = 0; a < 16; ++a)
+                        {
+                            for (size_t f = 0; f < stored_faces.size(); ++f)
+                            {
+                                uint32_t sid = mapping[stored_faces[f].unchecked_get()].unchecked_get();
+                                senses[f] = ((a >> lab.var_of[sid]) & 1) ? Sense::outside
+                                                                         : Sense::inside;
+                            }
+                            bool v = eval(Span<Sense const>(senses.data(), stored_faces.size()));
+                            got |= TT(TT(v) << a);
+                        }
+                        S.ctr[c_evaluations] += 16;
+                        if (got != I.val[root])
+                            err = fmt("LogicEvaluator on the stored logic gives %s, the chain's "
+                                      "table is %s", tt_str(got, 4).c_str(),
+                                      tt_str(I.val[root], 4).c_str());
+                    }
+                    if (!err.empty())
+                        C.violation("chain:stored-logic-differs", cid, err);
+                }
+                R.end_case();
+            }
+    (void)thorough;
+    if (!R.replay())
+        for (int d : {limit - 1, limit})
+            if (!reached.count(d))
+                R.harness_error(fmt("chains: stack depth %d was not reached", d));
+}
+
 State root_state(Lab const& lab)
 {
     State st;
@@ -1677,7 +2000,17 @@ int main(int argc, char** argv)
     int const shallow = (R.part() == "csg_asan") ? 2 : 0;
     int const K_of_lab[2] = {(thorough ? 7 : 6) - shallow, (thorough ? 7 : 6) - shallow};
 
-    if (R.replay())
+    if (R.replay() && R.replay_case().rfind("chain:L", 0) == 0)
+    {
+        // case id of the deep-chain lattice: chain:L<lab>/depth=<d>/outer=<op>/neg=<0|1>
+        std::string cid = R.replay_case();
+        if (cid.size() < 8 || (cid[7] != '0' && cid[7] != '1'))
+            R.harness_error("bad case id " + cid);
+        Lab lab = make_lab(cid[7] - '0');
+        Checker C(R, lab);
+        check_chains(R, C, thorough);
+    }
+    else if (R.replay())
     {
         // case id: L<lab>/<op>/<op>... optionally followed by " (insert transitions)"
         std::string cid = R.replay_case();
@@ -1739,6 +2072,7 @@ int main(int argc, char** argv)
             if (E.stop)
                 R.cap_hit(fmt("deadline reached while exploring labelling %d (K=%d)", li,
                               K_of_lab[li]));
+            check_chains(R, C, thorough);
         }
     }
 
@@ -1751,6 +2085,7 @@ int main(int argc, char** argv)
         if (S.tag[i])
             R.tag(tag_name[i], S.tag[i]);
     R.maxi("postfix_stack_depth", S.max_postfix_depth);
+    R.maxi("postfix_stack_depth_accepted_chain", S.max_postfix_depth_chain);
     R.maxi("postfix_logic_length", S.max_logic_len);
     R.maxi("nodes_in_built_tree", S.max_nodes);
     R.maxi("nodes_after_demorgan", S.max_dm_nodes);
